@@ -55,5 +55,10 @@ func nullifyLastAppliedAnnotation(object *unstructured.Unstructured) {
 		return
 	}
 	delete(annotations, apply.LastAppliedAnnotation)
+	if len(annotations) == 0 {
+		// Don't leave an empty map behind: against an object that was applied
+		// without annotations it reads as a change on every sync.
+		annotations = nil
+	}
 	object.SetAnnotations(annotations)
 }
